@@ -72,6 +72,18 @@ func stableKind(name string) bool {
 	return false
 }
 
+// ledgerName: the name under which an obligation is recorded in the ledger. Back-edge obligations
+// (one per `continue` / loop end) are recorded once per clause, without the back-edge descriptor:
+// adding or removing a back edge is not a vanished contract target.
+func ledgerName(name string) string {
+	if strings.HasPrefix(name, "loop") && (strings.Contains(name, "/inv-step/") || strings.Contains(name, "/variant/")) {
+		if i := strings.Index(name, "@after:"); i >= 0 {
+			return name[:i]
+		}
+	}
+	return name
+}
+
 func hasTag(o *Obligation, id string) bool {
 	if len(o.Tags) == 0 {
 		return true
@@ -223,10 +235,12 @@ func cmdCheck(args []string) int {
 			}
 			led = append(led, LedgerEntry{"(analysis)", n})
 		}
+		ledSeen := map[string]bool{}
 		for _, r := range results {
 			for _, o := range r.Obls {
-				if stableKind(o.Name) && !o.Known {
-					led = append(led, LedgerEntry{r.Fn, o.Name})
+				if stableKind(o.Name) && !o.Known && !ledSeen[r.Fn+"|"+ledgerName(o.Name)] {
+					ledSeen[r.Fn+"|"+ledgerName(o.Name)] = true
+					led = append(led, LedgerEntry{r.Fn, ledgerName(o.Name)})
 				}
 			}
 		}
@@ -265,7 +279,7 @@ func cmdCheck(args []string) int {
 		}
 		for i, o := range r.Obls {
 			v := r.Verdicts[i]
-			generated[r.Fn+"|"+o.Name] = true
+			generated[r.Fn+"|"+ledgerName(o.Name)] = true
 			solverSecs += v.Secs
 			rep := oblReport{Fn: shortCallee(r.Fn), Name: o.Name, Desc: o.Desc, Pos: o.Pos, Answer: v.Answer, By: v.By, Secs: v.Secs}
 			all = append(all, rep)
